@@ -22,8 +22,34 @@ def variants(prop, tier):
     return ['plain'] + (['asan'] if tier == 'thorough' else [])
 
 
+def checksum_workload(rng):
+    """a gap-free family (equal lengths, substitutions only) whose GCG checksums sit on the edges of the modulus: the sum
+    of the row checksums is an exact multiple of 10000 (global Check: 0), or one row's checksum is 0 or 9999"""
+    import parsers
+    kind = rng.choice(['dna', 'protein'])
+    alpha = gen.DNA if kind == 'dna' else gen.PROT
+    L = rng.randint(30, 90)
+    base = gen.rand_seq(rng, alpha, L)
+    n = rng.randint(2, 5)
+    seqs = [base] + [''.join(rng.choice(alpha) if rng.random() < 0.06 else c for c in base) for _ in range(n - 1)]
+    target = rng.choice(['global0', 'global0', 'row0', 'row9999'])
+    last = list(seqs[-1])
+    others = sum(parsers.gcg_checksum(x.encode()) for x in seqs[:-1])
+    for _ in range(60000):
+        c = parsers.gcg_checksum(''.join(last).encode())
+        if (target == 'global0' and (others + c) % 10000 == 0) or (target == 'row0' and c == 0) or (target == 'row9999' and c == 9999):
+            break
+        last[rng.randrange(L)] = rng.choice(alpha)
+    seqs[-1] = ''.join(last)
+    wl = {'kind': kind, 'profile': 'checksum', 'shape': 'star', 'seqs': seqs, 'type': gen.T_UNDEF, 'gpo': -1.0, 'gpe': -1.0, 'tgpe': -1.0}
+    wl['names'] = gen.gen_names(rng, n)
+    return wl
+
+
 def io_workload(rng, prop):
     """alignments with widths around multiples of 60, long names, mixed case"""
+    if prop == 'C15' and rng.random() < 0.04:
+        return checksum_workload(rng)
     mode = rng.randrange(5)
     if mode == 0:
         # substitutions and deletions only from a base whose length is 60k-1..60k+1: width tends to be the base length
